@@ -67,7 +67,7 @@ def repo_with_extras(s, rng, cs, n_targets, delegated, extras_on=True):
     dl = []
     deleg = None
     if delegated:
-        b = s.targets(version=2, targets=entries("a/b/", 1), sigs=scen.valid([8]), extra=x("b"))
+        b = s.targets(version=2, targets=entries("a/b/", rng.choice([1, 2, 3])), sigs=scen.valid([8]), extra=x("b"))
         a = s.targets(version=3, targets=entries("a/", 2), sigs=scen.valid([7]), extra=x("a"),
                       delegations={"keys": [8], "roles": [{"name": "B", "keyids": [8], "threshold": 1, "paths": ["a/b/*"],
                                                            "terminating": rng.random() < 0.3}]})
@@ -76,7 +76,12 @@ def repo_with_extras(s, rng, cs, n_targets, delegated, extras_on=True):
         if rng.random() < 0.6:
             # a sibling listed BEFORE A although its name sorts after it, with overlapping paths: the order of the
             # delegations is the order of trust and must survive an update
-            zeta = s.targets(version=4, targets=entries("z/", 1), sigs=scen.valid([7]), extra=x("zeta"))
+            # ... and, half of the time, Zeta delegates to B as well: B is then reached along two paths (one file, one
+            # snapshot entry, loaded twice); an update must leave such a repository loadable
+            diamond = rng.random() < 0.5
+            zeta = s.targets(version=4, targets=entries("z/", 1), sigs=scen.valid([7]), extra=x("zeta"),
+                             **({"delegations": {"keys": [8], "roles": [{"name": "B", "keyids": [8], "threshold": 1,
+                                                                         "paths": ["a/b/*"]}]}} if diamond else {}))
             dl.append(("Zeta", 4, zeta))
         # the "terminating" flag of a delegation is data to carry over: it must not change what an update writes
         term = rng.random() < 0.5
